@@ -56,7 +56,7 @@ def array_rules(prog, chk, rid):
             dels = [i for i, n in enumerate(f.nodes) if n["k"] == "CXXDeleteExpr"]
             seats = [s.node for s, l, r in st if l == "this->_begin.item"]
             ends = [s.node for s, l, r in st if l == "this->_end.item"]
-            good = len(dels) == 1 and "this->_begin.item" in q.no_casts(f.r(dels[0]))
+            good = len(dels) == 1 and "this->_begin.item" in q.no_casts(C.norm(f, f.nodes[dels[0]]["c"][0], {}, q.local_defs(f)) if f.nodes[dels[0]]["c"] else f.r(dels[0]))
             if good:
                 okp, _p = C.after_all_pass(f, f.node_pos(dels[0]), q.pos_of(f, seats))
                 oke, _p = C.after_all_pass(f, f.node_pos(dels[0]), q.pos_of(f, ends))
@@ -110,7 +110,9 @@ def array_rules(prog, chk, rid):
                 chk.bad(rid, f, "remove-destroy-count", where,
                         "Array::remove must decrement _end.item once and destroy exactly one (the vacated last) element on every such path")
             # the shift assigns towards the front: *dest = *(++pos)
-            shifts = [s for s in q.stores(f) if f.r(s.lhs).startswith("*") and s.rhs is not None and "++" in f.r(s.rhs)]
+            # `*dest = *(++pos)`, `*pos = pos[1]`, `*pos = *(pos + 1)`: the successor is assigned into the vacated slot, inside a loop
+            shifts = [s for s in q.stores(f) if (f.r(s.lhs).startswith("*") or f.r(s.lhs).endswith("[0]")) and s.rhs is not None and
+                      re.search(r"\+\+|\[1\]|\+ 1\)", f.r(s.rhs)) and C.loop_blocks(f, s.node)]
             if shifts:
                 chk.ok(rid, f, "shift loop assigns the successor into the vacated slot", f.where(shifts[0].node), f.r(shifts[0].node)[:60], nontrivial=False)
             else:
